@@ -283,9 +283,34 @@ def q3(prog, rep):
                         "a vote's power is tallied without the voter being looked up in the "
                         "validator set", where)
         # the added power is that of the validator found under the vote's address
-        rep.check("power(" in added and "validator_address" in added, "Q3", "tally-operand",
-                  f"tallied value is not the power of the validator found under the vote's "
-                  f"address: {trunc(added)}", where)
+        rep.check("power(" in added and "<BlockIdFlagCommit>.validator_address" in added, "Q3",
+                  "tally-operand",
+                  f"tallied value is not the power of the validator found under the address of a "
+                  f"vote *for the block* (CommitSig::BlockIdFlagCommit): {trunc(added)} - nil or "
+                  f"absent votes must not count towards the block's quorum", where)
+        # ... and the tally is only reachable through the BlockIdFlagCommit arm
+        arm = None
+        for sb in sorted(body.live_blocks()):
+            t = body.term(sb)
+            if t[0] == "switch" and body._disc_source(sb, t) is not None:
+                r = body.root(t[1])
+                if r.startswith("disc(next(into_iter(commit.signatures))<Some>.0)"):
+                    arm = (sb, t)
+        ok_arm = False
+        if arm is not None:
+            sb, t = arm
+            # exactly one non-default target reaches the tally, and it is the arm whose places
+            # are downcast to BlockIdFlagCommit (checked through the operand root above)
+            heads = {c.bb for c in body.calls if c.matches(r"Iterator>?::next$") and c.macros
+                     and c.macros[0] == "desugar:ForLoop"}
+            reaching = [(v, tgt) for v, tgt in t[2]
+                        if bb in body.reachable(tgt, removed_blocks=heads)]
+            other = bb in body.reachable(t[3], removed_blocks=heads) \
+                if body.term(t[3])[0] != "unreachable" else False
+            ok_arm = len(reaching) == 1 and not other
+        rep.check(ok_arm, "Q3", "tally<=commit-arm-only",
+                  "the power tally is reachable from more than one CommitSig variant (votes that "
+                  "are not for the block would be counted)", where)
         # address-from-pubkey equality
         ne = [c for c in comparisons(body) if c.op == "Eq" and "pub_key" in c.a + c.b
               and "validator_address" in c.a + c.b]
@@ -380,6 +405,16 @@ def q4(prog, rep):
                             "rollup data is attached to metadata without passing the Merkle "
                             "proof check (remove_header_blob_matching_rollup_blob Some edge)",
                             where)
+            # ... and only for a blob that names *this* conductor's rollup id: the Merkle proof
+            # alone also holds for another rollup's data of the same block
+            idc = [c for c in comparisons(body) if c.op == "Eq"
+                   and re.search(r"rollup_id\(.*rollup", c.a + "|" + c.b)
+                   and re.search(r"(^|\|)rollup_id($|\|)", c.a + "|" + c.b)]
+            rep.check(bool(idc) and body.must_pass_edges(set(idc[0].true_edges), i), "Q4",
+                      "block-with-data<=own-rollup-id",
+                      "rollup data is attached without checking that the blob's rollup id is the "
+                      "conductor's own: another rollup's data of the same block (valid proof, "
+                      "posted into this namespace) would be executed as this rollup's", where)
             rep.check("remove_header_blob_matching_rollup_blob" in fields.get("header", ""),
                       "Q4", "block-with-data:header-source",
                       f"the header attached to rollup data does not come from the matched "
